@@ -62,6 +62,7 @@ LAYOUTS = {
     "wrapped inside relations": ([[PARTS[2]], [A, PARTS[1]]], "wrapped", False, ()),
     "one entry on a continuation line": ([[A]], "lead-nl", False, ()),
     "substvar first, then entries": ([[A], [B, Cc]], "substvar-first", False, ("misc:Depends",)),
+    "tight relations with restriction lists": ([[rel("t", profiles=[[(True, "nocheck")]])], [rel("u", archqual="any", version=(">=", "1:2"), profiles=[[(False, "stage1")], [(True, "x")]])]], "tight", False, ()),
 }
 
 
@@ -450,6 +451,15 @@ def run_history_(cx, C, F, lname, layout, ops, cells):
     ok = C.ob("C11/wellformed", label, got is not None, "%r -> %r is not a well-formed field: %s" % (text0, text, err), sp)
     if ok:
         C.ob("C11/model", label, got == M(model), "%r -> %r denotes %s, the list model has %s" % (text0, text, got, model), sp)
+        # Relations::len / is_empty count entries (not substvars)
+        for meth, want in (("len", hirai.mkint(len(model))), ("is_empty", ("bool", len(model) == 0))):
+            fm = F.fn(R(meth))
+            if fm is not None:
+                try:
+                    rv, _ = cx.call1(R(meth), [("ref", (("T", "rels"),))], st)
+                except (Outcome, hirai.Violation) as e:
+                    rv = str(e)
+                C.ob("C11/%s" % meth, label, rv == want, "%r -> %r: %s() returns %s, the list model has %d entries" % (text0, text, meth, rv, len(model)), fm["sp"])
         acc = read_back(cx, st)
         C.ob("C11/accessors", label, acc == M(model), "%r -> %r: entries()/relations() and the relation accessors report %s, the list model has %s" % (text0, text, acc, M(model)), sp)
         C.ob("C11/substvars", label, gsv == list(svars), "%r -> %r has substvars %s, expected %s" % (text0, text, gsv, list(svars)), sp)
